@@ -299,11 +299,11 @@ def ser_top(t: pydsdl.CompositeType, v: typing.Any, ch: Chooser) -> Stream:
     return s
 
 
-def stream_matches(s: Stream, buf: typing.Sequence[typing.Any]) -> typing.Any:
-    """z3 Bool: the first ceil(s.pos/8) bytes of buf carry exactly the specified bits"""
+def stream_matches(s: Stream, buf: typing.Sequence[typing.Any], as_list: bool = False) -> typing.Any:
+    """z3 Bool: the first ceil(s.pos/8) bytes of buf carry exactly the specified bits (as_list: the conjuncts, one per chunk)"""
     nbytes = (s.pos + 7) // 8
     if nbytes == 0:
-        return z3.BoolVal(True)
+        return [] if as_list else z3.BoolVal(True)
     bs = [z3.BitVecVal(b, 8) if isinstance(b, int) else b for b in buf[:nbytes]]
     whole = bs[0] if nbytes == 1 else z3.Concat(*reversed(bs))
     conj = []
@@ -317,6 +317,8 @@ def stream_matches(s: Stream, buf: typing.Sequence[typing.Any]) -> typing.Any:
             conj.append(f16_wire_ok(c[4], c[3], field))
     if s.pos % 8:
         conj.append(z3.Extract(8 * nbytes - 1, s.pos, whole) == 0)
+    if as_list:
+        return conj
     return z3.And(*conj) if conj else z3.BoolVal(True)
 
 
